@@ -18,6 +18,7 @@ type Input struct {
 	Aux      map[string]string // other files of the project directory
 	Requests []string          // generated task names to ask for (besides the file's own)
 	Own      []string          // task names the harness could read out of the mutated file
+	Focus    []string          // tasks a field-aware mutation touched: the CLI channel asks for these first
 	Assigns  []string
 	Insecure bool
 	Remote   bool // TASK_X_REMOTE_TASKFILES=1 for the CLI
@@ -32,6 +33,8 @@ func baseAux() map[string]string {
 		"emptydir/.keep":   "",
 		".env":             "DOTENV_A=1\nDOTENV_B='two words'\n",
 		"x.yml":            "version: '3'\ntasks: {x: echo x}\n",
+		"#inc.yml":         auxInc,
+		"#x/Taskfile.yml":  "version: '3'\ntasks: {h: echo hash-dir}\n",
 	}
 }
 
@@ -96,6 +99,14 @@ func GenInput(seeds []Seed, i int) Input {
 			n := [...]int{1, 1, 1, 1, 1, 2, 2, 2, 3, 3}[r.Intn(10)]
 			for k := 0; k < n; k++ {
 				switch x := r.Intn(20); {
+				case x < 3:
+					if f, ok := shellMutate(r, doc); ok {
+						in.Muts = append(in.Muts, MutShell)
+						if f != "" {
+							in.Focus = append(in.Focus, f)
+						}
+						changed = true
+					}
 				case x < 15:
 					if m := structMutate(r, doc); m != "" {
 						in.Muts = append(in.Muts, m)
@@ -142,6 +153,9 @@ func GenInput(seeds []Seed, i int) Input {
 			in.Aux["inc.yml"] = string(data)
 			in.Main = []byte("version: '3'\nincludes:\n  i: ./inc.yml\n  j:\n    taskfile: ./inc.yml\n    flatten: true\n    optional: true\ntasks:\n  default: echo root\n")
 			in.Muts = append(in.Muts, "as-included-file")
+			for k, f := range in.Focus {
+				in.Focus[k] = "i:" + f
+			}
 		}
 	}
 	if len(in.Muts) == 0 {
